@@ -109,6 +109,8 @@ def main():
     dst = os.path.join(VERIF, "seeded", sid)
     os.makedirs(dst, exist_ok=True)
     for f in ("patch.diff", "demo_test.go", "notes.md"):
+        if os.path.abspath(seed) == os.path.abspath(dst):
+            break
         if os.path.exists(os.path.join(seed, f)):
             shutil.copy(os.path.join(seed, f), os.path.join(dst, f))
     mp = os.path.join(dst, "meta.json")
